@@ -495,7 +495,7 @@ def run_struct(ctx, i, layout, rng):
 def run(ctx):
   pool_ref = [None]
   install_invariant(ctx, pool_ref)
-  n_hist = 160 if ctx.tier == 'quick' else 6000
+  n_hist = 700 if ctx.tier == 'quick' else 8000
   max_ops = 8 if ctx.tier == 'quick' else 12
   for i in ctx.indices(n_hist, 'history'):
     rng = ctx.rng('history', i)
